@@ -51,6 +51,7 @@ Round 4b – the two axes of table/heatmap/spark and the render loop (`Rare/Mode
                                                       Go's insertion sort, n ≤ 12); `<renders>` = `.` | `cols:rows/…` index lists
   topn    <name> <keys> <values> <n> <dl>             `MatchCounter.ItemsSortedBy(n, sorter)` through the real counter: the first n
                                                       rows of the specified order (`panic` for n < 0 ≤ rows; `unmodelled` unless uniform)
+  sbv     <name>                                       `helpers.SortsByValue(name)` (`1` | `0`), `strings.ToLower` by the model
   axesagg <rname> <cname> <rowkeys> <colkeys> <renders> <rdl> <cdl>   cumulative renders through the real TableAggregator:
                                                       the specified order of each axis (`unmodelled` unless both are uniform)
 -/
@@ -300,6 +301,10 @@ def handle : List String → String
         | none => "bad-args"
       | _, _ => "bad-args"
     else "bad-op"
+  | ["sbv", name] =>
+    match Hex.dec name with
+    | none => "bad-args"
+    | some n => if sortsByValue lowerK n then "ok 1" else "ok 0"
   | ["pf", keys] =>
     match decHexList keys with
     | none => "bad-args"
